@@ -53,7 +53,7 @@ def run(chk):
         tid += 1
     sw, res = chk.generate(sweep.c18_sweep_task, tasks)
     chk.extra['sweep_results_judged'] = sum(r['events'] for r in res)
-    sh_stream = common.stage_histories(chk, ntraces=32 if q else 1500, steps=10 if q else 40,
+    sh_stream = common.stage_histories(chk, ntraces=chk.th(32, 1500), steps=chk.th(10, 40),
                                        nvars_choices=[3, 4, 4], profile='stream', tag='st')
     chk.validate('TraceSweep', 'TraceSweep.cfg', sw)
     chk.validate('TraceBDD', 'TraceBDD.cfg', sh_stream)
